@@ -13,7 +13,8 @@
    rule of the statement: leaf table; chain = AND; sum = AND restricted to TIMES|ADJOINT; adjoint / inverse = bit swaps),
    psd (may act as a covariance: real non-negative diagonal scalings / diagonals, sandwiches and block diagonals thereof). *)
 EXTENDS Integers, Sequences, FiniteSets, TLC, Json
-CONSTANTS MaxSlots, EmitAll
+CONSTANTS MaxSlots, EmitAll,
+          Focus       \* "all": every leaf | "diag": a small family (two diagonals, two scalings on U, one on H, Hartley, one matrix) so that ALL programs of 3-4 slots can be enumerated
 VARIABLES slots
 Dim(s) == IF s \in {"U", "H"} THEN 2 ELSE 4
 \* ---- dyadic Gaussian arithmetic ---------------------------------------------------------------------------------
@@ -70,7 +71,7 @@ Leaf(kind, args, dom, tgt, M, Mi, hMi, cap, psd) ==
    si |-> psd /\ kind \in {"scaling", "diag", "diag0", "diag1", "block"} /\ args[2] # "id"]
 DiagPairs == {<<"1", "2">>, <<"i", "-1">>, <<"1/2", "1+i">>, <<"2", "1/2">>}
 Leaves ==
-     {Leaf("scaling", <<s.nm, sp>>, sp, sp, MScale(MId(Dim(sp)), s.c, s.k), MScale(MId(Dim(sp)), s.ic, s.ik), TRUE, ALL, s.realpos) : s \in Scalars, sp \in {"U", "UU", "MD"}}
+     {Leaf("scaling", <<s.nm, sp>>, sp, sp, MScale(MId(Dim(sp)), s.c, s.k), MScale(MId(Dim(sp)), s.ic, s.ik), TRUE, ALL, s.realpos) : s \in Scalars, sp \in {"U", "H", "UU", "MD"}}
 \cup {Leaf("diag", <<p[1], p[2]>>, "U", "U", Diag2(Sc(p[1]), Sc(p[2])), Diag2Inv(Sc(p[1]), Sc(p[2])), TRUE, ALL, Sc(p[1]).realpos /\ Sc(p[2]).realpos) : p \in DiagPairs}
 \cup {Leaf("diag0", <<p[1], p[2]>>, "UU", "UU", KronLeft(Diag2(Sc(p[1]), Sc(p[2]))), KronLeft(Diag2Inv(Sc(p[1]), Sc(p[2]))), TRUE, ALL, Sc(p[1]).realpos /\ Sc(p[2]).realpos) : p \in DiagPairs}
 \cup {Leaf("diag1", <<p[1], p[2]>>, "UU", "UU", KronRight(Diag2(Sc(p[1]), Sc(p[2]))), KronRight(Diag2Inv(Sc(p[1]), Sc(p[2]))), TRUE, ALL, Sc(p[1]).realpos /\ Sc(p[2]).realpos) : p \in DiagPairs}
@@ -97,7 +98,11 @@ Init == slots = <<>>
 Push(x) == Len(slots) < MaxSlots /\ slots' = Append(slots, x)
 SI == 1..Len(slots)
 E2(op, a, b) == [op |-> op, k |-> "", a |-> <<"", "">>, x |-> a, y |-> b]
-MkLeaf == \E l \in Leaves : Push(l)
+FocusLeaves == {l \in Leaves : \/ (l.e.k = "diag" /\ l.e.a \in {<<"1", "2">>, <<"1/2", "1+i">>})
+                               \/ l.e.k = "hartley"
+                               \/ (l.e.k = "scaling" /\ l.e.a \in {<<"2", "U">>, <<"1+i", "U">>, <<"2", "H">>})
+                               \/ (l.e.k = "matrix" /\ l.e.a[1] = "A")}
+MkLeaf == \E l \in (IF Focus = "diag" THEN FocusLeaves ELSE Leaves) : Push(l)
 MkSum == \E a, b \in SI, neg \in BOOLEAN :
            /\ slots[a].dom = slots[b].dom /\ slots[a].tgt = slots[b].tgt
            /\ Push([e |-> E2(IF neg THEN "sub" ELSE "add", a, b), dom |-> slots[a].dom, tgt |-> slots[a].tgt,
